@@ -826,7 +826,7 @@ func (b *BootGuard) BPMCryptoSecure() (bool, error) {
 		}
 		for _, hash := range b.VData.CBNTbpm.SE[0].DigestList.List {
 			if hash.HashAlg == cbnt.AlgSHA1 || hash.HashAlg.IsNull() {
-				if b.VData.CBNTbpm.SE[0].DigestList.Size < 2 {
+				if len(b.VData.CBNTbpm.SE[0].DigestList.List) < 2 {
 					return false, fmt.Errorf("signed IBB hash list in BPM uses insecure hash algorithm SHA1/Null")
 				}
 			}
